@@ -208,7 +208,7 @@ func genCase(r *vf.Run, i int) (*caseSpec, []gen.Entry) {
 }
 
 func main() {
-	vf.Main("C14", "exploration", ruleText, 10, 400, body)
+	vf.Main("C14", "exploration", ruleText, 15, 300, body)
 }
 
 func body(r *vf.Run) {
@@ -221,7 +221,7 @@ func body(r *vf.Run) {
 		childBody(r)
 		return
 	}
-	n := r.N(120, 4000)
+	n := r.N(200, 3000)
 	all := make([]int, n)
 	for i := range all {
 		all[i] = i
